@@ -496,22 +496,27 @@ func (e *lpmEntry) upsert(primaryKey index.Key, obj object) bool {
 		e.head.obj = obj
 		return false
 	case -1:
-		oldHead := e.head
+		// The tail may be shared with entries held by older snapshots,
+		// so build a new one instead of modifying it in place.
+		newTail := make([]lpmEntryObject, len(e.tail)+1)
+		newTail[0] = e.head
+		copy(newTail[1:], e.tail)
 		e.head = lpmEntryObject{primary: primaryKey, obj: obj}
-		e.tail = append(e.tail, lpmEntryObject{})
-		copy(e.tail[1:], e.tail[:len(e.tail)-1])
-		e.tail[0] = oldHead
+		e.tail = newTail
 		return true
 	}
 	idx, found := e.searchTail(primaryKey)
 	if found {
-		e.tail[idx].obj = obj
+		newTail := slices.Clone(e.tail)
+		newTail[idx].obj = obj
+		e.tail = newTail
 		return false
 	}
-	entry := lpmEntryObject{primary: primaryKey, obj: obj}
-	e.tail = append(e.tail, lpmEntryObject{})
-	copy(e.tail[idx+1:], e.tail[idx:])
-	e.tail[idx] = entry
+	newTail := make([]lpmEntryObject, len(e.tail)+1)
+	copy(newTail, e.tail[:idx])
+	newTail[idx] = lpmEntryObject{primary: primaryKey, obj: obj}
+	copy(newTail[idx+1:], e.tail[idx:])
+	e.tail = newTail
 	return true
 }
 
